@@ -10,6 +10,8 @@ call; exception handlers run) and `crash` (a forked child `os._exit`s at the k-t
 k-th file-level call returned; nothing runs, nothing in user-space file buffers reaches the disk).
 A second stream runs HISTORIES: several transactions on one live PulseStorage that share sub-template
 objects, one of them failing at every position, observed through a new storage after every transaction.
+A third stream CONSTRUCTS templates of every class with the live PulseStorage as (default) registry — valid
+ones and ones whose constructor must raise: a constructor that raised must leave no trace.
 Afterwards the storage object is abandoned, a new `PulseStorage` over a new backend object on the same
 directory / archive lists and loads everything.  The state is compared with the Lean model's
 `run (steps.take k)` and judged with the executable spec `loadableB` (proved `↔ Loadable`).
@@ -1267,6 +1269,236 @@ def run_histories(ctx, jobs: list):
         ctx.count('history:len%d' % len(case['txns']))
 
 
+# ---------------------------------------------------------------------------------------------
+# registry stream: templates of every class CONSTRUCTED with `registry=<live PulseStorage>`
+# ---------------------------------------------------------------------------------------------
+# With a PulseStorage as registry, registering is storing. A constructor that raises (channel mismatch, bad
+# mapping, negative count, taken identifier, ...) is a store that failed before its first write: it must leave
+# no trace. case = {'steps': [{'recipe': name, 'id': ident, 'kids': [kid...], 'v': int}], ...};
+# kid = {'prev': step index} (the object an earlier step built) | {'id': name|None, 'ch': channel, 'v': int, 'p': bool}
+
+def _kid(desc: dict, objs: list):
+    from qupulse.pulses import TablePT
+    if 'prev' in desc and desc['prev'] < len(objs) and objs[desc['prev']] is not None:
+        return objs[desc['prev']]
+    v = desc.get('v', 1)
+    top = 'k' if desc.get('p') else 1 + v % 5
+    return TablePT({desc.get('ch', 'A'): [(0, 0), (1 + v % 3, top, 'linear')]}, identifier=desc.get('id'),
+                   registry=dict())
+
+
+def _recipes():
+    from qupulse.pulses import (TablePT, SequencePT, RepetitionPT, MappingPT, ForLoopPT, AtomicMultiChannelPT,
+                                PointPT, FunctionPT, ArithmeticPT)
+    from qupulse.pulses.multi_channel_pulse_template import ParallelChannelPulseTemplate
+    from qupulse.pulses.arithmetic_pulse_template import ArithmeticAtomicPulseTemplate
+    from qupulse.pulses.time_reversal_pulse_template import TimeReversalPulseTemplate
+    from qupulse.pulses.constant_pulse_template import ConstantPulseTemplate
+    return {
+        'seq': lambda st, i, k, v: SequencePT(*k, identifier=i, registry=st),
+        'seq-constraint': lambda st, i, k, v: SequencePT(*k, identifier=i, registry=st,
+                                                        parameter_constraints=['a <' if v % 2 else 'a < 7']),
+        'amc': lambda st, i, k, v: AtomicMultiChannelPT(*k, identifier=i, registry=st),
+        'map-channel': lambda st, i, k, v: MappingPT(k[0], channel_mapping={'A': 'C'}, identifier=i, registry=st),
+        'map-param': lambda st, i, k, v: MappingPT(k[0], parameter_mapping={'k': '2*q'} if v % 2 else {'nope': '1'},
+                                                   identifier=i, registry=st),
+        'rep': lambda st, i, k, v: RepetitionPT(k[0], v % 5 - 1, identifier=i, registry=st),
+        'loop': lambda st, i, k, v: ForLoopPT(k[0], 'k', 1 + v % 3, identifier=i, registry=st),
+        'table': lambda st, i, k, v: TablePT({'A': [(0, 0), (2, 1), (1 + v % 3, 0)]}, identifier=i, registry=st),
+        'table-constraint': lambda st, i, k, v: TablePT({'A': [(0, 0), ('t', 1)]}, identifier=i, registry=st,
+                                                        parameter_constraints=['t <' if v % 2 else 't < 9']),
+        'point': lambda st, i, k, v: PointPT([(0, 0), (1 + v % 3, 1)], ('A',), identifier=i, registry=st),
+        'function': lambda st, i, k, v: FunctionPT('sin(t' if v % 3 == 0 else 'sin(t)', 2, 'A', identifier=i,
+                                                   registry=st),
+        'constant': lambda st, i, k, v: ConstantPulseTemplate(1 + v % 3, {'A': 1.}, identifier=i, registry=st),
+        'arith-scalar': lambda st, i, k, v: ArithmeticPT(k[0], '+-%'[v % 3], 3, identifier=i, registry=st),
+        'arith-atomic': lambda st, i, k, v: ArithmeticAtomicPulseTemplate(k[0], '+-*'[v % 3], k[-1], identifier=i,
+                                                                          registry=st),
+        'reversal': lambda st, i, k, v: TimeReversalPulseTemplate(k[0], identifier=i, registry=st),
+        'parallel': lambda st, i, k, v: ParallelChannelPulseTemplate(k[0], {'D': 1.}, identifier=i, registry=st),
+    }
+
+
+RECIPE_KIDS = {'seq': (1, 3), 'seq-constraint': (1, 2), 'amc': (2, 3), 'map-channel': (1, 1), 'map-param': (1, 1),
+               'rep': (1, 1), 'loop': (1, 1), 'table': (0, 0), 'table-constraint': (0, 0), 'point': (0, 0),
+               'function': (0, 0), 'constant': (0, 0), 'arith-scalar': (1, 1), 'arith-atomic': (2, 2),
+               'reversal': (1, 1), 'parallel': (1, 1)}
+
+
+def gen_registry_case(rng, index: int) -> dict:
+    counter = [0]
+
+    def new_id():
+        counter[0] += 1
+        return 'r%d' % counter[0]
+
+    steps, used = [], []
+    for j in range(rng.randrange(2, 5)):
+        name = rng.choice(sorted(RECIPE_KIDS))
+        lo, hi = RECIPE_KIDS[name]
+        kids = []
+        for _ in range(rng.randrange(lo, hi + 1)):
+            if steps and rng.random() < 0.3:
+                kids.append({'prev': rng.randrange(len(steps))})
+            else:
+                # mostly channel A; a different channel makes a sequence invalid and a multi-channel pulse valid
+                ch = rng.choice('AAAB') if name != 'amc' else rng.choice('AABC')
+                kids.append({'id': new_id() if rng.random() < 0.6 else None, 'ch': ch, 'v': rng.randrange(100),
+                             'p': name in ('loop', 'map-param') and rng.random() < 0.7})
+        ident = rng.choice(used) if used and rng.random() < 0.15 else new_id()
+        used.append(ident)
+        steps.append({'recipe': name, 'id': ident, 'kids': kids, 'v': rng.randrange(100)})
+    return {'steps': steps, 'index': index, 'default': rng.random() < 0.3}
+
+
+def obj_node_sexp(ab: Abstraction, obj, cache_before: dict, docs: dict, oids: dict):
+    """Lean `Node` of a constructed object: its sub-serializables in the order the encoder meets them"""
+    ser = _ser()
+    ident = obj.identifier
+    kids = []
+
+    def walk(o):
+        if isinstance(o, ser.Serializable):
+            kids.append(o)
+        elif isinstance(o, dict):
+            for key in sorted(o, key=str):
+                walk(o[key])
+        elif isinstance(o, (list, tuple, set, frozenset)):
+            for x in o:
+                walk(x)
+    try:
+        walk(obj.get_serialization_data())
+    except Exception:  # noqa
+        pass
+    reused = ident is not None and cache_before.get(ident) is obj
+    tok = ab.token(docs[ident]) if ident is not None and ident in docs else 0
+    return ['n', '-' if ident is None else ab.ident(ident), oids.setdefault(id(obj), len(oids) + 1), tok, True,
+            bool(reused), [] if reused else [obj_node_sexp(ab, k, cache_before, docs, oids) for k in kids]]
+
+
+def impl_registry(case: dict, backend: str) -> dict:
+    scratch = Scratch(backend)
+    try:
+        ser = _ser()
+        scratch.fill({})
+        live = ser.PulseStorage(scratch.open_backend())
+        recipes = _recipes()
+        ab = Abstraction([])
+        objs, steps, model_steps, oids = [], [], [], {}
+        for st in case['steps']:
+            cache_before = {i: e.serializable for i, e in live.temporary_storage.items()}
+            known_before = st['id'] in live
+            exc, obj = None, None
+            try:
+                kids = [_kid(d, objs) for d in st['kids']]
+                if case.get('default'):
+                    # the storage is the default registry: `registry=None` registers with it
+                    with live.as_default_registry():
+                        obj = recipes[st['recipe']](None, st['id'], kids, st['v'])
+                else:
+                    obj = recipes[st['recipe']](live, st['id'], kids, st['v'])
+            except RecursionError:
+                exc = 'RecursionError'
+            except Exception as e:  # noqa
+                exc = type(e).__name__
+            objs.append(obj)
+            obs = observe(scratch)
+            if obj is not None:
+                docs = ref_docs(st['id'], obj)
+                model_steps.append([['setitem', ab.ident(st['id']), obj_node_sexp(ab, obj, cache_before, docs, oids)],
+                                    NO_FAULT])
+            steps.append({'exc': exc, 'view': canon_impl(ab, obs['view']), 'view_sx': ab.view(obs['view']),
+                          'loads': {ab.ident(i): v for i, v in obs['loads'].items() if v != 'ok'},
+                          'known': st['id'] in live, 'known_before': known_before,
+                          'cache': [ab.ident(i) for i in live.temporary_storage.keys()],
+                          'txn_open': getattr(live, '_transaction_storage', None) is not None,
+                          'model_index': len(model_steps) - 1 if obj is not None else None})
+        line = sx(['c11', 'history', scratch.kind, [], [], model_steps])
+        return {'backend': backend, 'steps': steps, 'line': line, 'names': {v: k for k, v in ab.num.items()}}
+    finally:
+        scratch.cleanup()
+
+
+def _registry_job(args):
+    case, backend = args
+    import warnings
+    warnings.filterwarnings('ignore')
+    try:
+        return impl_registry(case, backend)
+    except core.MachineryError:
+        raise
+    except Exception:  # noqa
+        import traceback
+        return {'backend': backend, 'harness_error': traceback.format_exc()[-1500:]}
+
+
+def run_registry(ctx, jobs: list):
+    if not jobs:
+        return
+    with _pool(ctx) as pool:
+        results = pool.map(_registry_job, jobs, chunksize=max(1, len(jobs) // 64))
+    for res in results:
+        if 'harness_error' in res:
+            raise core.MachineryError('harness failed on a registry case: ' + res['harness_error'])
+    answers = core.Lean.run([res['line'] for res in results])
+    # judge: a construction that raised must leave exactly the old content (new = old); one that succeeded
+    # must leave a loadable storage in which everything else kept its content
+    jl, keys = [], []
+    for n, res in enumerate(results):
+        before = []
+        for j, st in enumerate(res['steps']):
+            fin = before if st['exc'] is not None else st['view_sx']
+            if st['view_sx'] != 'missing' and fin != 'missing':
+                keys.append((n, j))
+                jl.append('(c11 judge %s %s %s)' % (sx(st['view_sx']), sx(before), sx(fin)))
+            before = st['view_sx'] if st['view_sx'] != 'missing' else before
+    judged = dict(zip(keys, core.Lean.run(jl)))
+    for n, ((case, backend), res, ans) in enumerate(zip(jobs, results, answers)):
+        if ans[0] != 'ok':
+            raise core.MachineryError('model rejected registry request: %r' % (ans,))
+        names = res['names']
+
+        def nm(i):
+            try:
+                return names.get(int(i), '#%s' % i)
+            except ValueError:
+                return str(i)
+        before_view = {}
+        for j, (spec, st) in enumerate(zip(case['steps'], res['steps'])):
+            line = '(registry %s step %d %s %s)' % (backend, j, spec['recipe'], res['line'])
+            ctx.case(line, nontrivial=True)
+            ctx.count('registry:' + spec['recipe'] + (':raised' if st['exc'] else ':stored'))
+            ctx.count('registry-outcome:' + (st['exc'] or 'stored'))
+            replay = {'kind': 'registry', 'case': case, 'backend': backend, 'step': j}
+            where = ('constructing %s %r with the PulseStorage as registry (step %d, %s backend)'
+                     % (spec['recipe'], spec['id'], j, backend))
+            verdict = judged.get((n, j), ['violates', 'backend-unreadable'])
+            what = None
+            if st['exc'] is not None and (st['view'] != before_view or st['txn_open']
+                                          or (st['known'] and not st['known_before'])):
+                what = ('%s raised %s but left a trace: the backend lists %s (before: %s), identifier known to the '
+                        'storage: %s' % (where, st['exc'], [nm(i) for i in sorted(st['view'] or ())],
+                                         [nm(i) for i in sorted(before_view)], st['known']))
+            elif verdict != 'ok':
+                what = 'after %s (%s) the storage is not loadable: %s' % (
+                    where, st['exc'] or 'stored', ' '.join(nm(x) for x in (verdict[1:] if isinstance(verdict, list) else [verdict])))
+            elif st['loads']:
+                what = 'after %s (%s) a new PulseStorage cannot load %s' % (
+                    where, st['exc'] or 'stored', ', '.join('%s (%s)' % (nm(i), e) for i, e in sorted(st['loads'].items())))
+            elif st['exc'] is None and not st['known']:
+                what = '%s succeeded but the identifier is not in the storage' % where
+            if what:
+                ctx.violation(what, replay)
+                break
+            if st['model_index'] is not None:
+                m = ans[1 + st['model_index']]
+                if m[0] != 'none' or canon_view(m[3]) != st['view']:
+                    ctx.drift('registry: state after a construction that stored', line, repr(st['view']),
+                              repr((m[0], canon_view(m[3]))))
+                    break
+            before_view = st['view']
+
+
 def _job(args):
     case, backend, modes, only = args
     import warnings
@@ -1447,7 +1679,8 @@ def run(ctx: core.Ctx):
                 'EVERY position k of one injected failure among the recorded events, in raise and crash mode '
                 '(crash: at every call and after every file-level call, no flushing). Plus histories of 2-4 '
                 'transactions on one PulseStorage sharing sub-template objects, a failure at every position of one of '
-                'them, observed after every transaction. '
+                'them, observed after every transaction. Plus constructions of all template classes with registry=storage '
+                '(a third of them rejected by the constructor: no trace allowed). '
                 'Non-trivial = the failure hits strictly inside the transaction\'s steps or is a front-end failure; '
                 'distinct by (request line, backend, mode, k)')
     ctx.assumptions = [
@@ -1490,11 +1723,24 @@ def run(ctx: core.Ctx):
             hjobs = []
     run_histories(ctx, hjobs)
     ctx.extra['history_stream_s'] = round(ctx.elapsed() - ctx.extra['single_txn_stream_s'], 1)
+    rrng = ctx.fork('registry')
+    rjobs = []
+    for index in range(ctx.n(150, 4000)):
+        rc = gen_registry_case(rrng, index)
+        for b in ('dict', 'dir', 'zip'):
+            if b != 'dict' and index % 3 != ('dir', 'zip').index(b):
+                continue
+            rjobs.append((rc, b))
+    run_registry(ctx, rjobs)
     ctx.exhaustive_spaces.append('every failure position k of every generated transaction, raise and crash mode '
                                  '(%d transactions x backends)' % n)
 
 
 def replay(ctx: core.Ctx, rec: dict, from_corpus: bool = False) -> bool:
+    if rec.get('kind') == 'registry':
+        before = len(ctx.violations)
+        run_registry(ctx, [(rec['case'], rec['backend'])])
+        return len(ctx.violations) == before
     if rec.get('kind') == 'history':
         before = len(ctx.violations)
         only = None
